@@ -391,6 +391,17 @@ def ob_zoom_keep(ctx, res):
         ctx.extra_coverage["truth_table_rows"] = ctx.extra_coverage.get("truth_table_rows", 0) + rows1 + rows2
 
 
+def _in_unused_closure(fn, n):
+    """n sits in the body of a local closure that was inlined at its call sites (the definition itself is then dead for the rule)"""
+    x = n.parent
+    while x is not None and isinstance(x, Node):
+        if x.k == "closure" and x.parent is not None and x.parent.k == "let" and x.parent["pat"].k == "p_ident" and \
+                ("closure " + x.parent["pat"]["name"]) in getattr(fn, "inlined", []):
+            return True
+        x = x.parent
+    return False
+
+
 def ob_overlaps(ctx, res):
     """C03-P4 / C04-P2 / C05-P1: overlaps o compare_position, inlined, both sorts enumerated"""
     fn = ctx.ast.fn(R, "overlaps")
@@ -417,8 +428,8 @@ def ob_overlaps(ctx, res):
     res.ok(cp, "compare_position is the lexicographic three-way comparison (%d order types)" % rows)
     # overlaps: args (q, qs, qe, c1, b1s, c2, b2e)
     # call sites pass (chrom_ix, start, end, child.start_chrom_ix, child.start_base, child.end_chrom_ix, child.end_base)
-    no = ctx.ast.fn(R, "nodes_overlapping")
-    cs = list(calls(no.body, func="overlaps"))
+    no = ctx.ast.fn(R, "nodes_overlapping", inline=True, keep=("overlaps", "compare_position"))
+    cs = [c_ for c_ in calls(no.body, func="overlaps") if not _in_unused_closure(no, c_)]
     if len(cs) != 2:
         res.fail("overlaps/sites", no, "expected 2 call sites of overlaps (leaf / non-leaf), found %d" % len(cs))
         return
